@@ -32,6 +32,15 @@ pub fn verif_dir() -> PathBuf {
         .unwrap_or_else(|| PathBuf::from("/verif"))
 }
 
+/// Where evidence files go: /verif/evidence, unless VERIF_EVIDENCE_DIR redirects it (the
+/// sensitivity helpers run checks against a deliberately broken /repo and must not
+/// overwrite the evidence of the unchanged tree).
+pub fn evidence_dir() -> PathBuf {
+    std::env::var_os("VERIF_EVIDENCE_DIR")
+        .map(PathBuf::from)
+        .unwrap_or_else(|| verif_dir().join("evidence"))
+}
+
 #[derive(Debug, Clone, Copy, PartialEq, Eq)]
 pub enum Tier {
     Quick,
@@ -753,7 +762,7 @@ impl Evidence {
             "wall_s": self.start.elapsed().as_secs_f64(),
             "violations": violations.len(),
         });
-        let edir = dir.join("evidence");
+        let edir = evidence_dir();
         let _ = std::fs::create_dir_all(&edir);
         let epath = edir.join(format!("{}.json", self.property));
         if let Err(e) = std::fs::write(&epath, serde_json::to_string_pretty(&ev).unwrap()) {
@@ -921,8 +930,8 @@ pub mod hang {
                     let ev = json!({"property_id": property, "tier": tier.name(), "seed": (seed & (i64::MAX as u64)) as i64,
                         "level": "exploration", "coverage": {"evaluations": 1, "distinct_nontrivial": 2,
                         "rule": "run cut short by a non-returning call", "samples": [body]}, "wall_s": 0.0, "violations": 1});
-                    let _ = std::fs::create_dir_all(dir.join("evidence"));
-                    let _ = std::fs::write(dir.join("evidence").join(format!("{property}.json")), ev.to_string());
+                    let _ = std::fs::create_dir_all(evidence_dir());
+                    let _ = std::fs::write(evidence_dir().join(format!("{property}.json")), ev.to_string());
                     println!("VIOLATION property={} replay={}", property, path.display());
                     std::process::exit(1);
                 }
